@@ -106,9 +106,10 @@ def replay_file(path):
         print("no failing input recorded for this obligation (no-failing-input-found); verifier output:")
         print(d.get("verifier_output", ""))
         return 0
-    if fi.get("mode") in ("cli", "cliorder", "climodel"):
+    if fi.get("mode") in ("cli", "cliorder", "climodel", "clitable"):
         from . import clisweep
-        r, err = {"cli": clisweep.replay_case, "cliorder": clisweep.order_case, "climodel": clisweep.model_case}[fi["mode"]](REPO, fi["case"])
+        r, err = {"cli": clisweep.replay_case, "cliorder": clisweep.order_case, "climodel": clisweep.model_case,
+                  "clitable": clisweep.table_case}[fi["mode"]](REPO, fi["case"])
         print(f"mode=cli case={fi['case']}")
         if r is not None:
             print("REPRODUCED on the real binary:")
